@@ -1,4 +1,5 @@
 import PgFdr.Model.C07
+import PgFdr.Proofs.C07
 
 /-!
 # C07 — results are reproducible across processes, hash seeds and repeated calls
@@ -65,5 +66,36 @@ example : ResetsSeen exStages := by intro ev d seen; rfl
 
 example : (call exStages ⟨[], 99, 5, 6, 7, [1, 2]⟩ 3).2 = (call exStages ⟨[], 0, 0, 0, 0, []⟩ 3).2 :=
   (call_history_independent exStages (by intro _ _ _; rfl) _ _ rfl rfl 3).1
+
+/-! ## The same statement for the concrete pipeline model that the driver executes
+
+`PgFdr.Pipeline.runFrom cfg inp seen` is the composed model of `get_protein_group_results` (grouping,
+evidence, competition, FDR, report, rescue pass) on strategy objects whose seen-set is `seen`; it is what
+the correspondence of `harness/props/C07.py` compares every call of a real call sequence with. -/
+
+open PgFdr.Pipeline in
+/-- a call on fresh objects leaves the competition strategy's seen-set empty -/
+theorem pipeline_leaves_seen_empty (cfg : Pipeline.Config) (inp : Pipeline.Input) (r : Pipeline.Result)
+    (s : List String) (h : Pipeline.runFrom cfg inp [] = .ok (r, s)) : s = [] :=
+  Pipeline.runFrom_seen cfg inp r s h
+
+/-- "Calling the inference function repeatedly - on the same or on different inputs, reusing one
+    method-configuration object - gives each call exactly the result a fresh process would give":
+    along ANY sequence of inputs, every call on the reused object returns what `Pipeline.run` returns on a
+    fresh one (for every shipped grouping / razor / competition configuration, every recorded shuffle,
+    cut map and score vector). -/
+theorem pipeline_calls_independent (cfg : Pipeline.Config) (inps : List Pipeline.Input) :
+    Pipeline.callSeq cfg [] inps = inps.map (Pipeline.run cfg) := by
+  induction inps with
+  | nil => rfl
+  | cons i rest ih =>
+    simp only [Pipeline.callSeq, Pipeline.run, List.map_cons]
+    cases h : Pipeline.runFrom cfg i [] with
+    | error e => simp only []; rw [ih]
+    | ok v =>
+      obtain ⟨r, s⟩ := v
+      have hs : s = [] := Pipeline.runFrom_seen cfg i r s h
+      subst hs
+      simp only []; rw [ih]
 
 end PgFdr.C07
